@@ -108,6 +108,41 @@ def run(ctx):
                 res = "raise:" + r.exc.typename
             ctx.ob("C07.crss", f"get_crss({pn},{fn_})", res == ("returns" if valid else "raise:ValueError"), f"{res}; pair is {'valid' if valid else 'invalid'}", gloc)
     ctx.floor("C07.crss", 32)
+    # the rate kernel itself: an invalid / mismatched (phase, fabric) pair raises on EVERY path, also on the paths through its data-dependent
+    # early returns (a grain without resolved slip must not get numbers for a fabric that does not exist)
+    ctx.rule("C07.reject-all-paths", "core.derivatives raises ValueError for invalid or mismatched (phase, fabric) pairs on the generic path and on the path through "
+                                     "each data-dependent early return met before the raise")
+    inv = [("olivine", "enstatite_AB"), ("enstatite", "olivine_A"), ("olivine", 6), ("olivine", -1), (2, "olivine_A"), (-1, "enstatite_AB")]
+    for regime_name in drex.DISLOCATION_REGIMES:
+        for pn, fn_ in inv:
+            def call(I_, pn=pn, fn_=fn_, regime_name=regime_name):
+                inp_ = drex.Inputs(2)
+                ph = enum(I_, "pydrex.core.MineralPhase", pn) if isinstance(pn, str) else pn
+                fb = enum(I_, "pydrex.core.MineralFabric", fn_) if isinstance(fn_, str) else fn_
+                return I_.call(public(ctx, I_, "pydrex.core.derivatives"), (), dict(
+                    regime=enum(I_, "pydrex.core.DeformationRegime", regime_name), phase=ph, fabric=fb, n_grains=inp_.N, orientations=inp_.A.copy(),
+                    fractions=inp_.f.copy(), strain_rate=inp_.D.copy(), velocity_gradient=inp_.L.copy(), deformation_gradient_spin=inp_.W.copy(),
+                    stress_exponent=inp_.p, deformation_exponent=inp_.n, nucleation_efficiency=inp_.lam, gbm_mobility=inp_.M, volume_fraction=inp_.phi))
+            tag = f"{regime_name}:phase={pn}:fabric={fn_}"
+            I0 = Interp(ctx.program, perm_chooser=chooser)
+            try:
+                call(I0)
+                ctx.ob("C07.reject-all-paths", tag + ":generic path", False, "returned numbers", loc)
+                continue
+            except RaiseSig as r:
+                ctx.ob("C07.reject-all-paths", tag + ":generic path", r.exc.typename == "ValueError", f"raised {r.exc.typename}", loc)
+            for gl0 in sorted({gl_ for _, gl_, _ in I0.exit_ids}):
+                Ik = Interp(ctx.program, perm_chooser=chooser)
+                Ik.force_exit = (gl0, "*")        # every grain takes this early return
+                try:
+                    call(Ik)
+                    ctx.ob("C07.reject-all-paths", f"{tag}:path through the early return at {gl0}", Ik.forced is None,
+                           "returned numbers for an invalid pair (the pair is only validated after this early return)", gl0)
+                except RaiseSig as r:
+                    ctx.ob("C07.reject-all-paths", f"{tag}:path through the early return at {gl0}", r.exc.typename == "ValueError", f"raised {r.exc.typename}", gl0)
+                except Exception as ex:
+                    ctx.observe(f"C07.reject-all-paths {tag}: path through {gl0} not interpretable ({str(ex)[:60]})")
+    ctx.floor("C07.reject-all-paths", 12)
     # M* = 0
     for fabric in ("olivine_A", "enstatite_AB"):
         for regime in drex.DISLOCATION_REGIMES:
